@@ -176,7 +176,7 @@ end generic
 def withField (spec : String) (kq : (p : Nat) → [NeZero p] → Res)
     (ke : (v : Variant) → (p : Nat) → (mc : List Int) → Res) : Res :=
   match spec.splitOn ":" with
-  | ["q", p] =>
+  | ["q", p] | ["q", p, _] =>   -- optional third component (ref/opt) only matters to the Python side
     match p.toNat? with
     | some p => if h : p = 0 then .bad "p=0" else haveI : NeZero p := ⟨h⟩; kq p
     | none => .bad "fieldspec"
